@@ -229,9 +229,10 @@ func (a *otherContactsAction) resolveRecipients(run flows.Run, logEvent flows.Ev
 
 		evaluatedLegacyVar = strings.TrimSpace(evaluatedLegacyVar)
 
-		if uuidRegex.MatchString(evaluatedLegacyVar) {
-			// if variable evaluates to a UUID, we assume it's a contact UUID
-			contactRefs = append(contactRefs, flows.NewContactReference(flows.ContactUUID(evaluatedLegacyVar), ""))
+		if asUUID := strings.ToLower(evaluatedLegacyVar); uuidRegex.MatchString(evaluatedLegacyVar) && uuids.Version(asUUID) == 4 {
+			// if variable evaluates to a UUID, we assume it's a contact UUID.. but only if it's one that a contact
+			// reference can hold, otherwise the event we log can't be read back
+			contactRefs = append(contactRefs, flows.NewContactReference(flows.ContactUUID(asUUID), ""))
 
 		} else if groupByName := groupSet.FindByName(evaluatedLegacyVar); groupByName != nil {
 			// next up we look for a group with a matching name
